@@ -5,6 +5,7 @@ import (
 	"errors"
 	"fmt"
 	"strings"
+	"time"
 
 	"github.com/IrineSistiana/mosdns/v5/coremain"
 	"github.com/IrineSistiana/mosdns/v5/pkg/query_context"
@@ -54,6 +55,18 @@ type c06run struct {
 	ID    string
 	Trace []string
 	Resp  int // response marker, 0 = none; <0 = reject rcode marker
+	Err   error
+	Inv   map[string]int // per wrapper tag: how often it was invoked in this run
+}
+
+// inv returns the invocation number of wrapper tag within this run (0, 1, ...).
+func (r *c06run) inv(tag string) int {
+	if r.Inv == nil {
+		r.Inv = map[string]int{}
+	}
+	k := r.Inv[tag]
+	r.Inv[tag] = k + 1
+	return k
 }
 
 var c06runKey = query_context.RegKey()
@@ -69,6 +82,7 @@ type c06tracer struct {
 type c06runs struct {
 	m   map[string]*c06run
 	ord []string
+	pending int
 }
 
 func (rs *c06runs) get(id string) *c06run {
@@ -161,11 +175,27 @@ func (t c06wrap) Exec(ctx context.Context, qCtx *query_context.Context, next seq
 		err := next.ExecNext(ctx, qCtx)
 		run.Trace = append(run.Trace, t.p.Tag+":post")
 		return err
+	case "wlate":
+		// like the cache's lazy refresh: keep the continuation and run it on a copy
+		// AFTER this Exec has returned, from another task; continue normally meanwhile
+		sub := fmt.Sprintf("%s/%s.%d#late", run.ID, t.p.Tag, run.inv(t.p.Tag))
+		cp := qCtx.Copy()
+		cp.StoreValue(c06runKey, sub)
+		t.runs.get(sub)
+		t.runs.pending++
+		simrt.GoNamed("late:"+sub, func() {
+			simrt.Sleep(0, time.Millisecond)
+			t.runs.get(sub).Err = next.ExecNext(context.Background(), cp)
+			t.runs.get(sub).Resp = respMarker(cp)
+			t.runs.pending--
+		})
+		return next.ExecNext(ctx, qCtx)
 	case "wseq":
 		// run the continuation N times in sequence on the same query
 		var first error
+		k := run.inv(t.p.Tag)
 		for i := 0; i < t.p.N; i++ {
-			sub := fmt.Sprintf("%s/%s#%d", run.ID, t.p.Tag, i)
+			sub := fmt.Sprintf("%s/%s.%d#%d", run.ID, t.p.Tag, k, i)
 			qCtx.StoreValue(c06runKey, sub)
 			t.runs.get(sub).Resp = -999 // placeholder, set below
 			err := next.ExecNext(ctx, qCtx)
@@ -180,9 +210,10 @@ func (t c06wrap) Exec(ctx context.Context, qCtx *query_context.Context, next seq
 		// run the continuation N times concurrently on copies of the query
 		errs := make([]error, t.p.N)
 		done := make(chan int, t.p.N)
+		k := run.inv(t.p.Tag)
 		for i := 0; i < t.p.N; i++ {
 			i := i
-			sub := fmt.Sprintf("%s/%s#%d", run.ID, t.p.Tag, i)
+			sub := fmt.Sprintf("%s/%s.%d#%d", run.ID, t.p.Tag, k, i)
 			cp := qCtx.Copy()
 			cp.StoreValue(c06runKey, sub)
 			t.runs.get(sub)
@@ -250,7 +281,7 @@ func c06Gen(r *simrt.Rand) *c06prog {
 				}
 				rule.Matches = append(rule.Matches, m)
 			}
-			k := r.Weighted(6, 1, 3, 2, 1, 2, 2, 2, 2, 1, 1, 1, 2, 2)
+			k := r.Weighted(6, 1, 3, 2, 1, 2, 2, 2, 2, 1, 1, 1, 2, 2, 2)
 			switch k {
 			case 0:
 				rule.Exec = "$" + newPlugin("aok", 0)
@@ -275,13 +306,20 @@ func c06Gen(r *simrt.Rand) *c06prog {
 				} else {
 					rule.Exec = "$" + newPlugin("wcont", 0)
 				}
+			case 14:
+				if parBudget > 0 {
+					parBudget--
+					rule.Exec = "$" + newPlugin("wlate", 0)
+				} else {
+					rule.Exec = "$" + newPlugin("wcont", 0)
+				}
 			case 9:
 				rule.Exec = "accept"
 			case 10:
 				rule.Exec = []string{"reject", "reject 3", "reject 2"}[r.Choose(3)]
 			case 11:
 				rule.Exec = "return"
-			default:
+			case 12, 13:
 				// jump / goto to an earlier sequence (targets must exist when a sequence is built)
 				var cands []int
 				for j := 0; j < si; j++ {
@@ -447,10 +485,19 @@ func (ri *c06ref) exec(c *c06cont, q *c06q) error {
 			err := ri.exec(rest, q)
 			run.Trace = append(run.Trace, pl.Tag+":post")
 			return err
+		case "wlate":
+			sub := fmt.Sprintf("%s/%s.%d#late", q.run, pl.Tag, run.inv(pl.Tag))
+			cq := &c06q{run: sub, resp: q.resp}
+			ri.runs.get(sub)
+			ri.runs.get(sub).Err = ri.exec(rest, cq)
+			ri.runs.get(sub).Resp = cq.resp
+			c = rest
+			continue
 		case "wseq":
 			var first error
+			k := run.inv(pl.Tag)
 			for i := 0; i < pl.N; i++ {
-				sub := fmt.Sprintf("%s/%s#%d", q.run, pl.Tag, i)
+				sub := fmt.Sprintf("%s/%s.%d#%d", q.run, pl.Tag, k, i)
 				ri.runs.get(sub)
 				saved := q.run
 				q.run = sub
@@ -464,8 +511,9 @@ func (ri *c06ref) exec(c *c06cont, q *c06q) error {
 			return first
 		case "wpar":
 			var first error
+			k := run.inv(pl.Tag)
 			for i := 0; i < pl.N; i++ {
-				sub := fmt.Sprintf("%s/%s#%d", q.run, pl.Tag, i)
+				sub := fmt.Sprintf("%s/%s.%d#%d", q.run, pl.Tag, k, i)
 				ri.runs.get(sub)
 				cq := &c06q{run: sub, resp: q.resp}
 				err := ri.exec(rest, cq)
@@ -512,16 +560,21 @@ func c06Main(rc *RunCtx) {
 	c := rc.priv.(*c06cfg)
 	p := c.prog
 	// reference first (bounded): programs whose k-fold continuations explode are skipped
+	nq := 1 + simrt.Choose(2) // one or two queries run through the same sequences concurrently
 	refRuns := &c06runs{m: map[string]*c06run{}}
 	ref := &c06ref{p: p, runs: refRuns}
-	rq := &c06q{run: "top"}
-	refRuns.get("top")
-	refErr := ref.exec(&c06cont{seq: p.Entry}, rq)
-	if refErr == errC06Budget || len(refRuns.ord) > 400 {
-		rc.Inconcl = "program too large (continuation fan-out)"
-		return
+	refErrs := make([]error, nq)
+	for qi := 0; qi < nq; qi++ {
+		top := fmt.Sprintf("top%d", qi)
+		rq := &c06q{run: top}
+		refRuns.get(top)
+		refErrs[qi] = ref.exec(&c06cont{seq: p.Entry}, rq)
+		if refErrs[qi] == errC06Budget || len(refRuns.ord) > 400 {
+			rc.Inconcl = "program too large (continuation fan-out)"
+			return
+		}
+		refRuns.get(top).Resp = rq.resp
 	}
-	refRuns.get("top").Resp = rq.resp
 
 	// real execution
 	realRuns := &c06runs{m: map[string]*c06run{}}
@@ -552,12 +605,27 @@ func c06Main(rc *RunCtx) {
 		reg[fmt.Sprintf("s%d", si)] = s
 		seqs = append(seqs, s)
 	}
-	q := mkQuery("seq.test.", dns.TypeA, 7)
-	qCtx := query_context.NewContext(q)
-	qCtx.StoreValue(c06runKey, "top")
-	realRuns.get("top")
-	err := seqs[p.Entry].Exec(context.Background(), qCtx)
-	realRuns.get("top").Resp = respMarker(qCtx)
+	errs := make([]error, nq)
+	qdone := make(chan int, nq)
+	for qi := 0; qi < nq; qi++ {
+		qi := qi
+		top := fmt.Sprintf("top%d", qi)
+		realRuns.get(top)
+		simrt.GoNamed("query:"+top, func() {
+			q := mkQuery("seq.test.", dns.TypeA, uint16(7+qi))
+			qCtx := query_context.NewContext(q)
+			qCtx.StoreValue(c06runKey, top)
+			errs[qi] = seqs[p.Entry].Exec(context.Background(), qCtx)
+			realRuns.get(top).Resp = respMarker(qCtx)
+			simrt.Send(0, qdone, qi)
+		})
+	}
+	for qi := 0; qi < nq; qi++ {
+		simrt.Recv(0, qdone)
+	}
+	for i := 0; i < 1000 && realRuns.pending > 0; i++ {
+		simrt.Sleep(0, time.Millisecond) // late continuations
+	}
 
 	// compare
 	es := func(e error) string {
@@ -566,10 +634,16 @@ func c06Main(rc *RunCtx) {
 		}
 		return e.Error()
 	}
-	if es(err) != es(refErr) {
-		// with concurrent continuations the first error in run-index order is reported by both
-		rc.Fail("error_differs", "sequence returned %s, the reference interpreter %s\n%s", es(err), es(refErr), c06Text(p))
-		return
+	var refErr error
+	for qi := 0; qi < nq; qi++ {
+		if es(errs[qi]) != es(refErrs[qi]) {
+			// with concurrent continuations the first error in run-index order is reported by both
+			rc.Fail("error_differs", "query %d: sequence returned %s, the reference interpreter %s\n%s", qi, es(errs[qi]), es(refErrs[qi]), c06Text(p))
+			return
+		}
+		if refErrs[qi] != nil {
+			refErr = refErrs[qi]
+		}
 	}
 	for _, id := range refRuns.ord {
 		want := refRuns.m[id]
@@ -580,6 +654,10 @@ func c06Main(rc *RunCtx) {
 		}
 		if strings.Join(got.Trace, " ") != strings.Join(want.Trace, " ") {
 			rc.Fail("trace_differs", "run %s:\n real: %s\n want: %s\n%s", id, strings.Join(got.Trace, " "), strings.Join(want.Trace, " "), c06Text(p))
+			return
+		}
+		if es(got.Err) != es(want.Err) {
+			rc.Fail("error_differs", "late continuation %s returned %s, reference %s\n%s", id, es(got.Err), es(want.Err), c06Text(p))
 			return
 		}
 		if got.Resp != want.Resp {
@@ -604,6 +682,15 @@ func c06Main(rc *RunCtx) {
 			simrt.Probe("c06.has_concurrent_wrapper")
 			break
 		}
+	}
+	for id := range refRuns.m {
+		if strings.HasSuffix(id, "#late") {
+			simrt.Probe("c06.late_continuation_ran")
+			break
+		}
+	}
+	if nq > 1 {
+		simrt.Probe("c06.two_queries")
 	}
 }
 
